@@ -212,6 +212,9 @@ struct PEnt {
     ns: u32,
     /// names of the same inode outside of the backed-up tree
     xlinks: u64,
+    /// the size the node RECORDS when it is not the length of the content the reader delivers (token `S:`; in-memory source only):
+    /// 0 = stdin-style node (`backup -`, `--stdin-command`), smaller = the file grew after `stat`, larger = it shrank
+    rsize: Option<u64>,
 }
 
 fn hexpath(p: &[Vec<u8>]) -> String {
@@ -229,6 +232,10 @@ fn entry_token(pe: &PEnt, spec: &BTreeMap<Vec<Vec<u8>>, (String, usize, u64)>) -
     match (&pe.tag, &e.kind) {
         (Tag::Hard(t), _) => format!("H:{p}:{}", hexpath(t)),
         (Tag::TreeOf(d), _) => format!("T:{p}:{}:{:o}:{mt}", hexpath(d), e.mode),
+        (Tag::Plain, SrcKind::File(_)) if pe.rsize.is_some() => {
+            let (k, l, s) = &spec[&e.path];
+            format!("S:{p}:{k}:{l}:{s}:{:o}:{mt}:{}", e.mode, pe.rsize.unwrap_or(0))
+        }
         (Tag::Plain, SrcKind::File(_)) => {
             let (k, l, s) = &spec[&e.path];
             if pe.xlinks > 0 { format!("F:{p}:{k}:{l}:{s}:{:o}:{mt}:{}", e.mode, pe.xlinks) } else { format!("F:{p}:{k}:{l}:{s}:{:o}:{mt}", e.mode) }
@@ -268,6 +275,7 @@ fn parse_entries(t: &[&str]) -> Option<Vec<PEnt>> {
         tag,
         ns,
         xlinks,
+        rsize: None,
     };
     let mode = |s: &str| u32::from_str_radix(s, 8).ok().filter(|m| *m <= 0o7777);
     for tok in t {
@@ -277,6 +285,16 @@ fn parse_entries(t: &[&str]) -> Option<Vec<PEnt>> {
                 let x = if f.len() == 8 { f[7].parse().ok()? } else { 0 };
                 let c = content(k, l.parse().ok()?, s.parse().ok()?)?;
                 out.push(mk(parse_path(p)?, SrcKind::File(c), mode(m)?, parse_mtime(mt)?, Tag::Plain, x));
+            }
+            ["S", p, k, l, s, m, mt, r] => {
+                let c = content(k, l.parse().ok()?, s.parse().ok()?)?;
+                let r: u64 = r.parse().ok()?;
+                if r == c.len() as u64 {
+                    return None;
+                }
+                let mut pe = mk(parse_path(p)?, SrcKind::File(c), mode(m)?, parse_mtime(mt)?, Tag::Plain, 0);
+                pe.rsize = Some(r);
+                out.push(pe);
             }
             ["D", p, m, mt] => out.push(mk(parse_path(p)?, SrcKind::Dir, mode(m)?, parse_mtime(mt)?, Tag::Plain, 0)),
             ["L", p, target, mt] => {
@@ -393,6 +411,8 @@ struct Exp {
     tag: char,
     /// one of several names of an inode inside the tree
     hl: bool,
+    /// the size the node must record when it is not the content length (`S:` entries)
+    rsize: Option<u64>,
 }
 
 #[derive(Clone, Debug)]
@@ -543,7 +563,9 @@ fn verify<S: IndexedFull>(repo: &Repository<S>, snap: &SnapshotFile, prefix: &Pa
                 obs.push(format!("{p}:l"));
             }
             SrcKind::File(c) => {
-                if !n.is_file() || n.meta.mode.map(go_perm) != Some(e.mode) || n.meta.size != c.len() as u64 {
+                // the node keeps the size the source RECORDED (it may differ from the content: stdin-style nodes); everything read
+                // below — dump, blob lengths, ranged reads, restore — must be the content actually read
+                if !n.is_file() || n.meta.mode.map(go_perm) != Some(e.mode) || n.meta.size != e.rsize.unwrap_or(c.len() as u64) {
                     return Err("oracle-fail:ls-file-meta".into());
                 }
                 // --- dump
@@ -1003,7 +1025,7 @@ fn mem_entry(pe: &PEnt) -> SrcEntry {
 /// plaintext of the tree blob of directory `dir` when `entries` are backed up with `cfg`
 fn tree_bytes_of(cfg: &Cfg, opts: &Opts, entries: Vec<SrcEntry>, ns: BTreeMap<Vec<Vec<u8>>, u32>, dir: &[Vec<u8>]) -> Result<Vec<u8>, String> {
     let h = init_with(cfg, opts.gf)?;
-    let src = NsSource { inner: MemSource::new(entries), ns };
+    let src = NsSource { inner: MemSource::new(entries), ns, sizes: BTreeMap::new() };
     let repo = open_nc(&h).and_then(Repository::to_indexed_ids).map_err(|e| errkind(&e))?;
     let snap = repo.archive(&BackupOptions::default(), &src, SnapshotFile::default(), &[PathBuf::from(SRC_ROOT)]).map_err(|e| format!("backup-{}", errkind(&e)))?;
     drop(repo);
@@ -1024,6 +1046,8 @@ const ROOT_MTIME: i64 = 1_600_000_000;
 struct NsSource {
     inner: MemSource,
     ns: BTreeMap<Vec<Vec<u8>>, u32>,
+    /// recorded sizes that differ from the content length (`S:` entries)
+    sizes: BTreeMap<Vec<Vec<u8>>, u64>,
 }
 
 impl ReadSource for NsSource {
@@ -1040,6 +1064,11 @@ impl ReadSource for NsSource {
                 let t = rustic_core::jiff::Timestamp::from_nanosecond(i128::from(e.mtime_s) * 1_000_000_000 + i128::from(*ns)).ok();
                 item.node.meta.mtime = t;
                 item.node.meta.atime = t;
+            }
+        }
+        for (item, e) in v.iter_mut().skip(1).zip(&self.inner.entries) {
+            if let (Ok(item), Some(r)) = (item, self.sizes.get(&e.path)) {
+                item.node.meta.size = *r;
             }
         }
         v.into_iter()
@@ -1064,7 +1093,11 @@ fn e2e(cfg: &Cfg, opts: &Opts, mut ents: Vec<PEnt>, seed: u64) -> String {
         Ok(h) => h,
         Err(e) => return format!("init-{e}"),
     };
-    let src = NsSource { inner: MemSource::new(ents.iter().map(mem_entry).collect()), ns: ents.iter().filter(|x| x.ns != 0).map(|x| (x.e.path.clone(), x.ns)).collect() };
+    let src = NsSource {
+        inner: MemSource::new(ents.iter().map(mem_entry).collect()),
+        ns: ents.iter().filter(|x| x.ns != 0).map(|x| (x.e.path.clone(), x.ns)).collect(),
+        sizes: ents.iter().filter_map(|x| x.rsize.map(|r| (x.e.path.clone(), r))).collect(),
+    };
     let repo = match open_nc(&h).and_then(Repository::to_indexed_ids) {
         Ok(r) => r,
         Err(e) => return errkind(&e),
@@ -1087,13 +1120,13 @@ fn e2e(cfg: &Cfg, opts: &Opts, mut ents: Vec<PEnt>, seed: u64) -> String {
         (_, SrcKind::Dir) => 'd',
         (_, SrcKind::Symlink(_)) => 'l',
     };
-    let mut exps = vec![Exp { rel: b"src".to_vec(), hexp: String::new(), kind: SrcKind::Dir, mode: 0o755, mtime_s: ROOT_MTIME, ns: 0, tag: '-', hl: false }];
+    let mut exps = vec![Exp { rel: b"src".to_vec(), hexp: String::new(), kind: SrcKind::Dir, mode: 0o755, mtime_s: ROOT_MTIME, ns: 0, tag: '-', hl: false, rsize: None }];
     for pe in &ents {
-        exps.push(Exp { rel: join_rel(b"src", &pe.e.path), hexp: hexpath(&pe.e.path), kind: pe.e.kind.clone(), mode: pe.e.mode, mtime_s: pe.e.mtime_s, ns: pe.ns, tag: tagc(pe), hl: is_hl(&ents, pe) });
+        exps.push(Exp { rel: join_rel(b"src", &pe.e.path), hexp: hexpath(&pe.e.path), kind: pe.e.kind.clone(), mode: pe.e.mode, mtime_s: pe.e.mtime_s, ns: pe.ns, tag: tagc(pe), hl: is_hl(&ents, pe), rsize: pe.rsize });
     }
     for e in &src.inner.entries {
         if !ents.iter().any(|pe| pe.e.path == e.path) {
-            exps.push(Exp { rel: join_rel(b"src", &e.path), hexp: String::new(), kind: SrcKind::Dir, mode: go_perm(e.mode), mtime_s: e.mtime_s, ns: 0, tag: '-', hl: false });
+            exps.push(Exp { rel: join_rel(b"src", &e.path), hexp: String::new(), kind: SrcKind::Dir, mode: go_perm(e.mode), mtime_s: e.mtime_s, ns: 0, tag: '-', hl: false, rsize: None });
         }
     }
     let tmp = match tempfile::tempdir() {
@@ -1203,7 +1236,7 @@ fn e2el(cfg: &Cfg, opts: &Opts, ents: Vec<PEnt>, seed: u64) -> String {
     }
     let mut exps = Vec::new();
     if opts.as_path {
-        exps.push(Exp { rel: b"src".to_vec(), hexp: String::new(), kind: SrcKind::Dir, mode: 0o755, mtime_s: ROOT_MTIME, ns: 0, tag: 'R', hl: false });
+        exps.push(Exp { rel: b"src".to_vec(), hexp: String::new(), kind: SrcKind::Dir, mode: 0o755, mtime_s: ROOT_MTIME, ns: 0, tag: 'R', hl: false, rsize: None });
     }
     let prefix: &[u8] = if opts.as_path { b"src" } else { b"" };
     for pe in &ents {
@@ -1217,7 +1250,7 @@ fn e2el(cfg: &Cfg, opts: &Opts, ents: Vec<PEnt>, seed: u64) -> String {
         if !kind_ok {
             return "err:src-differs-from-tokens".into();
         }
-        exps.push(Exp { rel: join_rel(prefix, &pe.e.path), hexp: hexpath(&pe.e.path), kind: pe.e.kind.clone(), mode: w.mode, mtime_s: w.mtime_s, ns: w.ns, tag, hl: is_hl(&ents, pe) });
+        exps.push(Exp { rel: join_rel(prefix, &pe.e.path), hexp: hexpath(&pe.e.path), kind: pe.e.kind.clone(), mode: w.mode, mtime_s: w.mtime_s, ns: w.ns, tag, hl: is_hl(&ents, pe), rsize: None });
     }
     let h = match init_with(cfg, opts.gf) {
         Ok(h) => h,
@@ -1458,6 +1491,10 @@ fn run_e2e(rest: &[&str], local: bool) -> String {
     let Some((opts, ent_toks)) = split_opts(&rest[ncfg..rest.len() - 1]) else { return "bad-op".into() };
     let Some(entries) = parse_entries(ent_toks) else { return "bad-op".into() };
     if entries.is_empty() {
+        return "bad-op".into();
+    }
+    // a recorded size other than the content length exists for in-memory sources only; never for a file with several names
+    if entries.iter().any(|x| x.rsize.is_some() && (local || is_hl(&entries, x))) {
         return "bad-op".into();
     }
     if local { e2el(&cfg, &opts, entries, seed) } else { e2e(&cfg, &opts, entries, seed) }
@@ -1908,7 +1945,7 @@ impl Build {
             })
     }
     fn push(&mut self, path: Vec<Vec<u8>>, kind: SrcKind, mode: u32, mt: (i64, u32), tag: Tag, xlinks: u64) {
-        self.ents.push(PEnt { e: SrcEntry { path, kind, mode, mtime_s: mt.0, ctime_s: mt.0, inode: 0, links: 1 }, tag, ns: mt.1, xlinks });
+        self.ents.push(PEnt { e: SrcEntry { path, kind, mode, mtime_s: mt.0, ctime_s: mt.0, inode: 0, links: 1 }, tag, ns: mt.1, xlinks, rsize: None });
     }
     fn file_mode(&self, rng: &mut Rng, stats: &mut Stats) -> u32 {
         if rng.chance(1, 5) {
@@ -1939,6 +1976,21 @@ impl Build {
         _ = self.spec.insert(path.clone(), (kind.to_string(), len, seed));
         // the bytes are regenerated from the token
         self.push(path, SrcKind::File(vec![]), mode, mt, Tag::Plain, xlinks);
+        // in-memory sources: 1 file in 6 sits behind a node that RECORDS another size than its reader delivers — 0 (stdin-style
+        // node: `backup -`, `--stdin-command`, block device saved as file), a smaller one (grown after `stat`), a larger one (shrunk)
+        if !self.local && xlinks == 0 && rng.chance(1, 6) {
+            let l = len as u64;
+            let r = match rng.below(5) {
+                0 | 1 => 0,
+                2 => l / 2,
+                3 => l.saturating_sub(1),
+                _ => l + 1 + rng.below(100_000),
+            };
+            if r != l {
+                stats.hit(if r == 0 { "file.recorded-size.zero" } else if r < l { "file.recorded-size.smaller" } else { "file.recorded-size.larger" });
+                self.ents.last_mut().unwrap().rsize = Some(r);
+            }
+        }
         true
     }
     fn dir(&mut self, rng: &mut Rng, stats: &mut Stats, path: Vec<Vec<u8>>) -> bool {
@@ -1964,6 +2016,12 @@ impl Build {
     fn hard(&mut self, path: Vec<Vec<u8>>, target: Vec<Vec<u8>>) -> bool {
         if !self.free(&path) {
             return false;
+        }
+        // a file with several names records its real size
+        for x in &mut self.ents {
+            if x.e.path == target {
+                x.rsize = None;
+            }
         }
         self.push(path, SrcKind::File(vec![]), 0, (0, 0), Tag::Hard(target), 0);
         true
